@@ -1,6 +1,5 @@
 package main
 
-func genSM2(repo string, write writer)    {}
 func genTLS(repo string, write writer)    {}
 func genX509(repo string, write writer)   {}
 func genShared(repo string, write writer) {}
